@@ -1,8 +1,9 @@
 (* C10 - Indexing and slicing follow Python semantics on every sequence kind.
-   Only statements here; every proof is `exact <lemma>` into Seq/Index_proofs.v.
+   Only statements here; every proof is `exact <lemma>` into Seq/Index_proofs.v or Seq/Accessors_proofs.v.
    `fits xs` is "the length fits in isize", which Rust guarantees for every Vec/slice. *)
 From Coq Require Import ZArith List Bool.
-From NV Require Import Common.Outcome Common.MachineInt Seq.Index Seq.IndexSpec Seq.Index_proofs.
+From NV Require Import Common.Outcome Common.MachineInt Seq.Index Seq.IndexSpec Seq.Index_proofs
+  Seq.Accessors Seq.Accessors_proofs.
 Import ListNotations.
 Open Scope Z_scope.
 
@@ -97,11 +98,80 @@ Theorem C10_remove_slice_addresses_read : forall (A : Type) (xs : list A) (lo hi
 Proof. exact @remove_slice_addresses_read. Qed.
 Print Assumptions C10_remove_slice_addresses_read.
 
+(* ---- the builtin accessors agree with the corresponding index or slice expression ---- *)
+(* take n / drop n for EVERY machine-word n (negative and extreme included): the two halves of the
+   list split at Python's reading of n, which is also what the slice expressions select *)
+Theorem C10_take_drop_python : forall (A : Type) (xs : list A) (n : Z), fits xs -> in_i64 n ->
+  let k := Z.to_nat (py_bound (zlen xs) n) in
+  take_list xs (IInt n) = Ok (firstn k xs) /\ drop_list xs (IInt n) = Ok (skipn k xs).
+Proof. exact @take_drop_python. Qed.
+Print Assumptions C10_take_drop_python.
+
+Theorem C10_take_drop_are_slices : forall (A : Type) (xs : list A) (n : Z), fits xs -> in_i64 n ->
+  take_list xs (IInt n) = Ok (py_slice xs None (Some n)) /\
+  drop_list xs (IInt n) = Ok (py_slice xs (Some n) None).
+Proof. exact @take_drop_are_slices. Qed.
+Print Assumptions C10_take_drop_are_slices.
+
+Theorem C10_take_drop_partition : forall (A : Type) (xs : list A) (n : Z), fits xs -> in_i64 n ->
+  exists a b, take_list xs (IInt n) = Ok a /\ drop_list xs (IInt n) = Ok b /\ a ++ b = xs.
+Proof. exact @take_drop_partition. Qed.
+Print Assumptions C10_take_drop_partition.
+
+Theorem C10_tail_butlast_python : forall (A : Type) (xs : list A), fits xs ->
+  tail_list xs = Ok (tl xs) /\ butlast_list xs = Ok (removelast xs).
+Proof. exact @tail_butlast_python. Qed.
+Print Assumptions C10_tail_butlast_python.
+
+(* uncons = (s[0], s[1:]), unsnoc = (s[:-1], s[-1]), including the index error on the empty sequence *)
+Theorem C10_uncons_is_index_and_tail : forall (A : Type) (xs : list A), fits xs ->
+  uncons_builtin xs = (a <- index_list xs (IInt 0) ;; t <- tail_list xs ;; Ok (a, t)).
+Proof. exact @uncons_is_index_and_tail. Qed.
+Print Assumptions C10_uncons_is_index_and_tail.
+
+Theorem C10_unsnoc_is_index_and_butlast : forall (A : Type) (xs : list A), fits xs ->
+  unsnoc_builtin xs = (a <- index_list xs (IInt (-1)) ;; t <- butlast_list xs ;; Ok (t, a)).
+Proof. exact @unsnoc_is_index_and_butlast. Qed.
+Print Assumptions C10_unsnoc_is_index_and_butlast.
+
+Theorem C10_only_spec : forall (A : Type) (xs : list A), fits xs ->
+  only_list xs = match xs with [a] => Ok a | _ => Err EIndex end.
+Proof. exact @only_spec. Qed.
+Print Assumptions C10_only_spec.
+
+Theorem C10_accessors_no_panic : forall (A : Type) (xs : list A) (n : idx), fits xs ->
+  tail_list xs <> Panic /\ butlast_list xs <> Panic /\ take_list xs n <> Panic /\ drop_list xs n <> Panic /\
+  uncons_builtin xs <> Panic /\ unsnoc_builtin xs <> Panic /\ only_list xs <> Panic.
+Proof. exact @accessors_no_panic. Qed.
+Print Assumptions C10_accessors_no_panic.
+
+(* the same accessors on a finite stream give what they give on the unfolded list ... *)
+Theorem C10_stream_accessors_as_list : forall (A : Type) (xs : list A) (n : Z), fits xs -> in_i64 n ->
+  omap sliced_elems (tail_stream xs) = tail_list xs /\
+  omap sliced_elems (butlast_stream xs) = butlast_list xs /\
+  omap sliced_elems (take_stream xs (IInt n)) = take_list xs (IInt n) /\
+  omap sliced_elems (drop_stream xs (IInt n)) = drop_list xs (IInt n) /\
+  uncons_stream xs = uncons_builtin xs /\
+  unsnoc_stream xs = unsnoc_builtin xs /\
+  only_stream xs = only_list xs.
+Proof. exact @stream_accessors_as_list. Qed.
+Print Assumptions C10_stream_accessors_as_list.
+
+(* ... and tail / drop of a non-negative count leave a stream of the remaining elements (nothing forced) *)
+Theorem C10_stream_tail_drop_lazy : forall (A : Type) (xs : list A) (n : Z), 0 <= n -> in_i64 n ->
+  tail_stream xs = Ok (SStream (tl xs)) /\ drop_stream xs (IInt n) = Ok (SStream (skipn (Z.to_nat n) xs)).
+Proof. exact @stream_tail_drop_lazy. Qed.
+Print Assumptions C10_stream_tail_drop_lazy.
+
 (* non-vacuity: the hypotheses are met by ordinary data and the functions compute *)
 Example C10_nonvacuous :
   fits [10; 20; 30] /\ index_list [10; 20; 30] (IInt (-1)) = Ok 30 /\
   index_list [10; 20; 30] (IInt (2 ^ 63 - 1)) = Err EIndex /\
   index_list [10; 20; 30] (IInt (2 ^ 64)) = Err EIndex /\
   slice_list [10; 20; 30; 40] (Some (IInt (-3))) (Some (IInt 3)) = Ok [20; 30] /\
-  py_slice [10; 20; 30; 40] (Some (-3)) (Some 3) = [20; 30].
+  py_slice [10; 20; 30; 40] (Some (-3)) (Some 3) = [20; 30] /\
+  take_list [10; 20; 30] (IInt (-1)) = Ok [10; 20] /\ drop_list [10; 20; 30] (IInt (-(2 ^ 63))) = Ok [10; 20; 30] /\
+  uncons_builtin [10; 20; 30] = Ok (10, [20; 30]) /\ unsnoc_builtin [10; 20; 30] = Ok ([10; 20], 30) /\
+  uncons_builtin (@nil Z) = Err EIndex /\ only_list [10] = Ok 10 /\ only_list [10; 20] = Err EIndex /\
+  tail_stream [10; 20; 30] = Ok (SStream [20; 30]).
 Proof. unfold fits. repeat split; vm_compute; try reflexivity; discriminate. Qed.
